@@ -597,8 +597,8 @@ func (k *checker) compare() {
 			}
 			c.Count(key)
 			c.Hist(it.family + ": " + resClass(o.Res))
-			if hc := hostClass(it.model); hc != "" {
-				c.Hist("block passed to a hand-written component: " + hc + " -> " + resClass(o.Res))
+			for _, hc := range hostClasses(it.model) {
+				c.Hist("block passed to a hand-written component, into " + hc + " -> " + hostRes(o.Res))
 			}
 		}
 	}
@@ -853,36 +853,57 @@ func hasHost(n *run.Node, p func(*run.Node) bool) bool {
 	return false
 }
 
-// hostClass names, for the evidence histogram, what the hand-written components of the program do with their blocks.
-func hostClass(n *run.Node) string {
+// hostClasses names, for the evidence histogram, what each hand-written component of the program does with its block.
+func hostClasses(n *run.Node) []string {
 	set := map[string]bool{}
 	hasHost(n, func(h *run.Node) bool {
 		k := h.HK
-		if k == "fwd" && h.Lim >= 0 {
-			k = "fwd-limited"
-			if h.Own {
-				k += "(reports its writer itself)"
+		if k == "fwd" {
+			k = "forwarding writer of its own"
+			if h.Lim >= 0 {
+				k = "forwarding writer of its own failing after k bytes"
+				if h.Own {
+					k += ", reported by the component"
+				} else {
+					k += ", reported by the block"
+				}
 			}
+		}
+		switch k {
+		case "pass":
+			k = "the writer it was given"
+		case "capture":
+			k = "bytes.Buffer of its own, copied afterwards"
+		case "bufio":
+			k = "bufio.Writer of its own (judged by the specification only)"
 		}
 		switch h.Times {
 		case 0:
-			k += " x0"
+			k += ", not rendered at all"
 		case 1:
 		default:
-			k += " x2+"
+			k += ", rendered twice"
 		}
 		set[k] = true
 		return false
 	})
-	if len(set) == 0 {
-		return ""
-	}
 	ks := make([]string, 0, len(set))
 	for k := range set {
 		ks = append(ks, k)
 	}
 	sort.Strings(ks)
-	return strings.Join(ks, ", ")
+	return ks
+}
+
+// coarse result class for the host histogram
+func hostRes(res string) string {
+	switch {
+	case res == "nil":
+		return "nil"
+	case strings.HasPrefix(res, "comp:8"):
+		return "the component's own writer's error"
+	}
+	return "another error"
 }
 
 func randBody(r *rng.R, depth int, maxLit int, nextID *int) []*run.Node {
@@ -1261,13 +1282,14 @@ func Run(c *core.Ctx) {
 	c.Rule = "one evaluation = one render job (program x environment x context x destination fault) executed by the real runtime and by the extracted model; distinct non-trivial = distinct (family, program, buffer size, fault mode, fault offset, destination kind, result) with a non-nil result or a cancelled context; in the destination-object families: distinct (family, program, kind of destination object, position in the sequence, fault, pool emptied, result) of a render that fails or comes back to an object used before"
 	c.Trusted = append(c.Trusted,
 		"specification spec/RenderSpec.v (denote: the document and the program's own first failure; first_refusal; spec_ok) and spec/RenderDestSpec.v (spec_wrap_ok: the same on the writer behind a buffered writer the caller owns, plus: no other destination object is called)",
-		"model of Go's bufio.Writer (model/Bufio.v), of the generated skeleton (model/RenderSkel.v) and of the caller's own bufio.Writer as a destination (model/RenderDest.v), tied to the code by this run",
+		"model of Go's bufio.Writer (model/Bufio.v), of the generated skeleton (model/RenderSkel.v: incl. a block closure that is handed a writer other than the enclosing render's buffer, takes a pooled buffer of its own, flushes it on return and adopts the flush error; the forwarding / capturing writers of hand-written components) and of the caller's own bufio.Writer as a destination (model/RenderDest.v), tied to the code by this run",
 		"translation of the generated probe text into the model's program shape (harness/internal/c10/translate.go): line-for-line match of prologue and error handlers, deviations reported",
 		"extraction: ExtrOcamlBasic only; ocaml/driver.ml", "Go harness internal/c10, the Go toolchain, sync.Pool's contract (Get returns a value previously Put, or New())")
 	c.Assume = append(c.Assume,
 		"destination writers never report more bytes than offered (otherwise bufio panics); termination additionally needs: a call that returns a nil error accepts at least one byte (io.Writer demands n<len => err!=nil) - without it bufio's large-write loop spins, reproduced as C10_spin_witness",
 		"TEMPL_DEV_MODE is off (runtime/watchmode.go WriteString then is io.WriteString)",
 		"Go expressions and hand-written components are opaque: an expression yields (string, error); a hand-written component writes/returns as scripted, checks every write error and does not retain the writer",
+		"a hand-written component that is passed a block of children renders it 0, 1 or more times, one after the other, into the writer it was given, through a forwarding writer of its own (Write only; unlimited, or taking k bytes in all and then returning its own error), into a bytes.Buffer of its own that it copies with one Write, or through a bufio.Writer of its own (the last is not modelled: judged by the extracted specification predicate only); when such a limited writer has failed Render may return that writer's error (spec_ok's third alternative, empty for programs without one)",
 		"a render's context does not change state during the render",
 		"a destination value used again by a later render is modelled as a destination in the state it then has (its own record of accepted bytes starting empty)",
 		"a caller that hands Render its own *bufio.Writer flushes it after Render and Resets it when that Flush reports an error (C10_buffered_destination: the writer is then as new); behind it the model wants a writer with WriteString - behind a bufio.Writer a writer without it is compared on results and bytes only while it never fails, and judged by the specification predicate alone when it fails")
@@ -1493,9 +1515,9 @@ func Run(c *core.Ctx) {
 							h.Pre, h.Post = []byte("<sec>"), []byte("</sec>")
 						}
 						hs[i] = h
-						names = append(names, fmt.Sprintf("%s x%d lim=%d own=%v", h.HK, h.Times, h.Lim, h.Own))
+						names = append(names, fmt.Sprintf("%s x%d lim=%d own=%v size=%d around=%v", h.HK, h.Times, h.Lim, h.Own, h.Size, len(h.Pre) > 0))
 					}
-					what := "components " + strings.Join(names, " | ")
+					what := fmt.Sprintf("components %d: %s", ci, strings.Join(names, " | "))
 					variants = append(variants, variant{mkEnvH(0), mkComps(0), what + ", ok", hs})
 					if ci%3 == 0 || !c.Quick() {
 						fe := 1 + ci%pr.nExpr
